@@ -170,7 +170,7 @@ func c10Enumerate(t *testing.T, part string, depth int, stride int) {
 	if stride > 1 {
 		kind = fmt.Sprintf("every %dth program of the enumeration of all programs", stride)
 	}
-	st := NewStats("C10", part, fmt.Sprintf(kind+" `find all P` (and, up to depth 2, `P 'b'` three subroutine-in-loop forms, and 72 guarded-recursion programs) with P from the nullable-material grammar (18 atoms incl. all anchors and their negations and a `not in` with a multi-byte item, 11 loop heads greedy/fewest/named, or-pairs) to nesting depth %d x all %d texts of length 1..3 over {a,b,\\n}; oracle: VM instructions per Run <= %d (largest observed count reported); non-trivial = program contains a loop whose body is nullable; programs are distinct by construction", depth, len(c10Texts()), c10EnumBudget))
+	st := NewStats("C10", part, fmt.Sprintf(kind+" `find all P` (and, up to depth 2, `P 'b'` three subroutine-in-loop forms, and 342 guarded-recursion programs: 19 consuming first instructions incl. every class and its negation x 6 continuations x 3 contexts) with P from the nullable-material grammar (18 atoms incl. all anchors and their negations and a `not in` with a multi-byte item, 11 loop heads greedy/fewest/named, or-pairs) to nesting depth %d x all %d texts of length 1..3 over {a,b,\\n}; oracle: VM instructions per Run <= %d (largest observed count reported); non-trivial = program contains a loop whose body is nullable; programs are distinct by construction", depth, len(c10Texts()), c10EnumBudget))
 	st.Exhaustive = stride == 1
 	defer st.Write()
 	texts := c10Texts()
@@ -210,7 +210,7 @@ func c10Enumerate(t *testing.T, part string, depth int, stride int) {
 		}
 	}
 	// guarded recursion: the subroutine consumes (one of four consuming atoms) before it recurses
-	for _, x := range []*Node{{K: KLit, S: "a"}, {K: KClass, Class: "any"}, {K: KIn, Not: true, Items: []Item{{Kind: 0, S: "ab"}, {Kind: 0, S: "b"}}}, {K: KIn, Items: []Item{{Kind: 0, S: "a"}, {Kind: 0, S: "ab"}}}} {
+	for _, x := range c10ConsumingAtoms() {
 		call := &Node{K: KCall, S: "s"}
 		for _, rest := range []*Node{
 			{K: KLoop, Min: 0, Max: 1, Body: call},
@@ -231,7 +231,7 @@ func c10Enumerate(t *testing.T, part string, depth int, stride int) {
 		runProgram([]*Node{b}, nl)
 		if i < shallow {
 			runProgram([]*Node{b, {K: KLit, S: "b"}}, nl)
-			if !containsNamed(b) {
+			{
 				// subroutine with this body, called inside loops; the definition is
 				// itself under a min-0 loop in the second form
 				sub := &Node{K: KSub, S: "s", Kids: []*Node{b}}
@@ -243,6 +243,27 @@ func c10Enumerate(t *testing.T, part string, depth int, stride int) {
 		}
 	}
 	st.Add("programs_total", int64(idx))
+}
+
+// c10ConsumingAtoms: every kind of instruction that must consume at least one byte
+// or fail - also at the end of the input, where a negated test has nothing to look
+// at. A subroutine that starts with one of them "consumes before it recurses".
+func c10ConsumingAtoms() []*Node {
+	atoms := []*Node{
+		{K: KLit, S: "a"},
+		{K: KLit, S: "a", Not: true},
+		{K: KLit, S: "A", Caseless: true},
+		{K: KClass, Class: "any"},
+		{K: KIn, Not: true, Items: []Item{{Kind: 0, S: "ab"}, {Kind: 0, S: "b"}}},
+		{K: KIn, Items: []Item{{Kind: 0, S: "a"}, {Kind: 0, S: "ab"}}},
+		{K: KIn, Items: []Item{{Kind: 1, From: "a", To: "b"}}},
+		{K: KIn, Not: true, Items: []Item{{Kind: 1, From: "b", To: "c"}}},
+		{K: KIn, Not: true, Items: []Item{{Kind: 2, Class: "whitespace"}, {Kind: 0, S: "b"}}},
+	}
+	for _, c := range []string{"whitespace", "digit", "letter", "upper", "lower"} {
+		atoms = append(atoms, &Node{K: KClass, Class: c}, &Node{K: KClass, Class: c, Not: true})
+	}
+	return atoms
 }
 
 func containsNamed(n *Node) bool {
